@@ -131,45 +131,60 @@ def check_operations(ctx):
                 problems.append('%s does not override %s' % (cls, meth))
             else:
                 a = [x.arg for x in f.args.args[1:]]
-                ifs = [s for s in f.body if isinstance(s, ast.If)]
-                ct = util.canon_test(ifs[0].test) if len(ifs) == 1 else None
-                if ct == '0<self.param_flag' or ct == '0!=self.param_flag':
-                    param_branch, species_branch = ifs[0].body, ifs[0].orelse
-                elif ct in ('self.param_flag<=0', '0==self.param_flag'):
-                    param_branch, species_branch = ifs[0].orelse, ifs[0].body
-                else:
-                    raise AnalysisError('%s.%s: destination switch on param_flag not found' % (cls, meth))
-                se = symx.SymExec(prog, cls)
-                env = {a[-1]: dt}
-                rhs_args = ', '.join(a[:-1])
-                for branch, arr in ((param_branch, a[1]), (species_branch, a[0])):
-                    real = [x for x in branch if not (isinstance(x, ast.Expr) and isinstance(x.value, ast.Constant))]
-                    if len(real) == 1 and isinstance(real[0], ast.Expr) and isinstance(real[0].value, ast.Call) and \
-                            src(real[0].value.func) in ('self.rule_operation', 'self.rule_volume_operation'):
-                        # delegation to the sibling slot: plain -> volume with volume 1 is the same update; volume -> plain loses the volume
-                        c = real[0].value
-                        other = src(c.func).split('.')[-1]
-                        av = [src(x) for x in c.args]
-                        if meth == 'rule_operation' and other == 'rule_volume_operation' and len(av) == 5 and \
-                                [av[0], av[1], av[3], av[4]] == a and util.const_num(c.args[2]) == 1:
-                            continue
-                        problems.append('%s branch delegates to %s(%s): the right-hand side is then evaluated %s' % (
-                            'parameter' if arr == a[1] else 'species', other, ', '.join(av),
+                rhs_args = a[:-1]
+                R = symx.possym('RHS')
+                # delegation to the sibling slot: plain -> volume with volume 1 is the same update; volume -> plain loses the volume
+                deleg = [n.value for n in ast.walk(f) if isinstance(n, ast.Expr) and isinstance(n.value, ast.Call)
+                         and src(n.value.func) in ('self.rule_operation', 'self.rule_volume_operation')]
+                for c in deleg:
+                    other_slot = src(c.func).split('.')[-1]
+                    av = [src(x) for x in c.args]
+                    if not (meth == 'rule_operation' and other_slot == 'rule_volume_operation' and len(av) == 5 and
+                            [av[0], av[1], av[3], av[4]] == a and util.const_num(c.args[2]) == 1):
+                        problems.append('delegates to %s(%s): the right-hand side is then evaluated %s' % (
+                            other_slot, ', '.join(av),
                             "without the volume ('volume' reads 1 although a volume is in play)" if meth == 'rule_volume_operation' else 'by another slot'))
+                for flag, arr, other in (() if deleg else ((1, a[1], a[0]), (0, a[0], a[1]))):
+                    seen = []
+
+                    def hook(n, env, se, seen=seen):
+                        if isinstance(n.func, ast.Attribute) and src(n.func.value) == 'self.rhs':
+                            seen.append((n.func.attr, [se.ex(x, env) for x in n.args]))
+                            return R
+                        return None
+                    se = symx.SymExec(prog, cls, call=hook)
+                    env0 = {'self.param_flag': sp.Integer(flag), a[-1]: dt}
+                    names = {x: sp.Symbol('arg_' + x, positive=True) for x in a[2:-1]}
+                    env0.update(names)
+                    try:
+                        final, _ = se.run_env(f, env0)
+                    except symx.Unsupported as e:
+                        raise AnalysisError('%s.%s: %s' % (cls, meth, e))
+                    what = 'parameter' if flag else 'species'
+                    key = [k_ for k_ in (final or {}) if k_.replace(' ', '') == '%s[self.dest_index]' % arr]
+                    stray = [k_ for k_ in (final or {}) if k_.replace(' ', '') == '%s[self.dest_index]' % other]
+                    if not key or stray:
+                        problems.append('%s target: the value is stored into %s' % (what, (stray or ['nothing'])[0]))
                         continue
-                    tgt, val = branch_store(se, branch, env)
-                    if tgt != '%s[self.dest_index]' % arr:
-                        problems.append('%s branch stores into %s, expected %s[self.dest_index]' % ('parameter' if arr == a[1] else 'species', tgt, arr))
-                    call = [c for c in ast.walk(ast.Module(body=branch, type_ignores=[])) if isinstance(c, ast.Call) and src(c.func).startswith('self.rhs.')]
-                    if len(call) != 1 or src(call[0].func) != 'self.rhs.%s' % ev or ', '.join(src(x) for x in call[0].args) != rhs_args:
-                        problems.append('right-hand side evaluated as %s, expected self.rhs.%s(%s)' % ([src(c) for c in call], ev, rhs_args))
+                    if len(seen) != 1:
+                        problems.append('%s target: the right-hand side is evaluated %d times' % (what, len(seen)))
                         continue
-                    R = se.ex(call[0], env)
+                    attr_, args_ = seen[0]
+                    want_args = [names.get(x) for x in rhs_args[2:]]
+                    if attr_ == ev and args_[2:] == want_args:
+                        pass
+                    elif meth == 'rule_operation' and attr_ == 'volume_evaluate' and len(args_) == 4 and args_[2] == 1 and args_[3] == names.get(a[2]):
+                        pass        # the volume-free slot may evaluate with volume 1
+                    else:
+                        problems.append("%s target: the right-hand side is evaluated as %s(%s), expected self.rhs.%s(%s)%s" % (
+                            what, attr_, ', '.join(str(x) for x in args_[2:]), ev, ', '.join(rhs_args),
+                            " - 'volume' reads 1 although a volume is in play" if meth == 'rule_volume_operation' and attr_ == 'evaluate' else ''))
+                        continue
                     cur = symx.posfun(arr)(sp.Symbol('self.dest_index', real=True))
                     exp = cur + R * dt if ode else R
-                    eq, wit = symx.equal(val, exp)
+                    eq, wit = symx.equal(final[key[0]], exp)
                     if not eq:
-                        problems.append('stores %s, expected %s' % (val, exp))
+                        problems.append('%s target: stores %s, expected %s' % (what, final[key[0]], exp))
             ctx.ob('R9.2-operation', '%s.%s' % (cls, meth), not problems, where,
                    ('dest = dest + rhs*dt' if ode else 'dest = rhs') + ' into params iff param_flag > 0 else into state', '; '.join(problems))
         # destination binding
@@ -208,6 +223,36 @@ def check_operations(ctx):
                 detail = '%d sources: %s' % (n, got)
     ctx.ob('R9.2-operation', 'AdditiveAssignmentRule.rule_operation', ok, ctx.loc('types', f),
            'state[dest] = sum of state[source_i] over all sources', detail)
+    # the destination may be one of its own summands (A = A + B with frequency dt): every source must be read before the destination is
+    # written, i.e. no store into the state array is followed (in execution order, loops included) by a read of the state array
+    sarr = a[0]
+    order = []
+    def visit(stmts, in_loop):
+        for st in stmts:
+            if isinstance(st, (ast.For, ast.While)):
+                visit(st.body, True)
+                continue
+            if isinstance(st, ast.If):
+                visit(st.body, in_loop); visit(st.orelse, in_loop)
+                continue
+            tg = (st.targets if isinstance(st, ast.Assign) else [st.target]) if isinstance(st, (ast.Assign, ast.AugAssign)) else []
+            wr = [t for t in tg if isinstance(t, ast.Subscript) and src(t.value) == sarr]
+            rd = [n for n in ast.walk(st) if isinstance(n, ast.Subscript) and src(n.value) == sarr and isinstance(n.ctx, ast.Load)]
+            if isinstance(st, ast.AugAssign) and wr:
+                rd = rd + wr
+            order.append((bool(rd), bool(wr), in_loop, st))
+    visit(f.body, False)
+    bad = None
+    seen_write = False
+    for rd, wr, in_loop, st in order:
+        if rd and (seen_write or (wr and in_loop)):
+            bad = st
+            break
+        if wr:
+            seen_write = True
+    ctx.ob('R9.2-operation', 'AdditiveAssignmentRule.read-before-write', bad is None and any(w for _, w, _, _ in order), ctx.loc('types', f),
+           'all summands are read before the destination is written (the destination may be one of the summands)',
+           '' if bad is None else 'the state array is read at line %d after (or while) the destination has been overwritten' % bad.lineno)
 
 
 def check_rule_slots(ctx):
@@ -254,24 +299,29 @@ def classify_arrival(sl, p):
             last_ct, idx = e.node, i
     if last_ct is None:
         return 'none'
-    x = src(last_ct.value).replace(' ', '')
+    # follow plain names back along this path to the expression they were last given (`proposed_time = next_timepoint`,
+    # `next_timepoint = c_timepoints[current_index]`)
+    val, at = last_ct.value, idx
+    for _ in range(5):
+        if not isinstance(val, ast.Name):
+            break
+        prev = None
+        for k_, e in enumerate(p.events[:at]):
+            if e.kind == 'stmt' and isinstance(e.node, ast.Assign) and src(e.node.targets[0]) == val.id:
+                prev = (e.node.value, k_)
+        if prev is None:
+            break
+        val, at = prev
+    x = src(val).replace(' ', '')
     if x in ('c_timepoints[current_index]', 'timepoints[current_index]', 'final_time'):
         return 'timepoint'
+    if 'exponential_rv' in x:
+        return 'event'
+    if x == 'current_time+delta_t':
+        return 'lambda0-step'
+    x = src(last_ct.value).replace(' ', '')
     if x == 'proposed_time':
-        pt = None
-        for e in p.events[:idx]:
-            if e.kind == 'stmt' and isinstance(e.node, ast.Assign) and src(e.node.targets[0]) == 'proposed_time':
-                pt = e.node
-        if pt is None:
-            return 'unknown:proposed_time'
-        v = src(pt.value).replace(' ', '')
-        if 'exponential_rv' in v:
-            return 'event'
-        if v in ('c_timepoints[current_index]', 'timepoints[current_index]'):
-            return 'timepoint'
-        if v == 'current_time+delta_t':
-            return 'lambda0-step'
-        return 'unknown:' + v
+        return 'unknown:' + src(val).replace(' ', '')
     if isinstance(last_ct.value, ast.Name):
         var = last_ct.value.id
         for n in ast.walk(sl.loop):
@@ -501,7 +551,29 @@ def check(ctx):
     for rule, key, ok, where, what, detail in sub.got:
         if rule in ('R5.2-order', 'R5.2-choice', 'R5.2-lambda'):
             ctx.ob('R9.3-rates-after-rules', '%s/%s' % (rule, key), ok, where, what, detail)
-    ctx.floor('R9.3-rates-after-rules', 12)
+    # the lineage loop has its own propensity slot: same demand
+    sl = simloop.SimLoop(ctx, 'Lineage')
+    bad = []
+    pths = sl.iteration_paths()
+    ctx.paths += len(pths)
+    for p in pths:
+        i_rules = paths.index_of(p, lambda e: e.kind == 'stmt' and paths.stmt_calls(e.node, 'apply_repeated_volume_rules'))
+        i_comp = paths.index_of(p, lambda e: e.kind == 'stmt' and paths.stmt_calls(e.node, 'compute_lineage_propensities'))
+        i_lam = paths.index_of(p, lambda e: e.kind == 'stmt' and isinstance(e.node, ast.Assign) and src(e.node.targets[0]) == 'Lambda')
+        i_use = paths.index_of(p, lambda e: e.kind == 'stmt' and (paths.stmt_calls(e.node, 'sample_discrete') or paths.stmt_calls(e.node, 'exponential_rv')))
+        if p.exit == 'break' and i_comp < 0 and i_use < 0 and i_rules >= 0:
+            continue        # a death / division rule ended the cell before anything was drawn
+        if not (0 <= i_rules < i_comp < i_lam) or (0 <= i_use < i_lam):
+            bad.append('rules %d, propensities %d, Lambda %d, first draw %d on path [%s]' % (i_rules, i_comp, i_lam, i_use, paths.describe(p, 5)))
+        elif i_comp >= 0:
+            c = paths.stmt_calls(p.events[i_comp].node, 'compute_lineage_propensities')[0]
+            a = [src(util.strip_cast(x)).replace(' ', '') for x in c.args]
+            if a != ['__addr__(self.c_current_state[0])', '__addr__(self.c_propensity[0])', 'current_volume', 'current_time']:
+                bad.append('propensities computed with %s' % a)
+    ctx.ob('R9.3-rates-after-rules', 'Lineage', not bad and pths, sl.where,
+           'every iteration of the lineage loop applies the rules, then recomputes all propensities from the current state, volume and time, then sums them, before anything is drawn',
+           '; '.join(sorted(set(bad))[:2]))
+    ctx.floor('R9.3-rates-after-rules', 13)
     ctx.floor('R9.1-firing-predicate', 2)
     ctx.floor('R9.2-operation', 5)
     ctx.floor('R9.3-rules-first', 5)
